@@ -13,19 +13,31 @@ PROP = dict(
                 'oversized pattern-filled buffer that attributes an over-run to '
                 'a named site; returned length <= advertised, equal where the '
                 'predictor is documented as exact; generators overlay each '
-                'bound\'s worst-case class on shared array shapes; a '
+                'bound\'s worst-case class on shared array shapes; the adaptive '
+                'bound is additionally exercised on large arrays (10001..141071 '
+                'elements) whose true distinct count and 1-in-10 sampled '
+                'distinct count disagree: every k-th element (k 1..20, all '
+                'phases, mostly k = the sampler\'s stride at phase 0) from a '
+                'palette of 1..4 values, the others from a pool of D distinct '
+                'values, D per dictionary index width (<= 256, 257..65536, '
+                '> 65536) x tagged width class of the values (1..9 bytes, '
+                'mostly 6..9) x unsorted / ascending / descending; a '
                 'deterministic sweep covers the textbook worst cases at the '
-                'lengths where a header field changes width'),
+                'lengths where a header field changes width and four '
+                'representatives of the large adaptive class'),
     level_note=('trusts the harness decoding of case bytes, the sanitizer / '
                 'canary to see stray writes, and that a write of the pattern '
                 'byte 0xC3 beyond the bound in pass 1 is seen by pass 2; not '
-                'exhaustive; arrays above 70000 elements are not generated'),
+                'exhaustive; arrays above 70000 elements (adaptive: above 141071) '
+                'are not generated; the large adaptive class is a fixed share '
+                'of about 600 cases per quick run'),
     rule=('case = (family, variant, worst-case class, length cap selector, '
           'array descriptor [, float mode]); non-trivial = the encoder '
           'returned at least half of the advertised size, or the input is in '
           'a worst-case class (maximal width, all-distinct 9-byte values, '
           'alternating huge/low, 9-byte outliers at the last indices, '
-          '64-bit-wide blocks, sampler-fooling stride, 9-byte first value, '
+          '64-bit-wide blocks, sampler-fooling stride (incl. the large '
+          'palette/pool arrays of the adaptive sub-mode), 9-byte first value, '
           'count > 10000 for adaptive, 9-byte minimum or 8-byte offsets for '
           'FOR, 9-byte exception at index > 240 for PFOR, all-special or '
           'none-special doubles); distinct by hash of (family, variant, '
@@ -47,7 +59,22 @@ PROP = dict(
         'site.dict.encode', 'site.dict.withdict',
         'wc.maxWidth', 'wc.distinct9', 'wc.alternate', 'wc.tailOutliers',
         'wc.blocks64', 'wc.fool', 'wc.first9',
-        'adaptive.count>10000', 'adaptive.sel.DICT', 'adaptive.sel.PFOR',
+        'adaptive.count>10000',
+        # large arrays on which sample and true distinct count disagree
+        'adaptive.large', 'adaptive.large.idx1', 'adaptive.large.idx2',
+        'adaptive.large.idx3', 'adaptive.large.tag6', 'adaptive.large.tag7',
+        'adaptive.large.tag8', 'adaptive.large.tag9',
+        'adaptive.large.unsorted', 'adaptive.large.ascending',
+        'adaptive.large.descending', 'adaptive.large.n>72818',
+        'adaptive.large.k=stride.phase0', 'adaptive.large.phase>0',
+        'adaptive.large.poolOnKth', 'adaptive.large.under',
+        'adaptive.large.over',
+        'adaptive.large.agree', 'adaptive.large.under.idx2',
+        'adaptive.large.under.idx3', 'adaptive.large.under.idx3.tag6',
+        'adaptive.large.under.idx3.tag7', 'adaptive.large.under.idx3.tag8',
+        'adaptive.large.under.idx3.tag9', 'adaptive.large.under.sel.DICT',
+        'adaptive.large.under.sel.TAGGED', 'adaptive.large.result>=90%',
+        'adaptive.sel.DICT', 'adaptive.sel.PFOR',
         'adaptive.sel.FOR', 'adaptive.sel.DELTA', 'adaptive.sel.TAGGED',
         'pfor.exceptions', 'pfor.noExceptions', 'pfor.excIndex>240',
         'pfor.excIndex>2287', 'pfor.exc9bytes', 'bp128.blocks>=2',
